@@ -34,11 +34,22 @@ HdrWordOK(e, i) ==
      /\ k = <<e.id, e.counts[1], e.counts[2], e.counts[3], e.counts[4], mask, orc, oop>>
      /\ (~HdrZ(w) /\ oop # -1 /\ orc # -1) => e.r[i] = w
 
+\* C11 at the header: what a second parse of the re-serialised header observes equals the first
+HdrReparseOK(e, i) ==
+  LET w == e.w0 + i - 1
+      r == e.r[i] IN
+  (~HdrZ(w)) => /\ r >= 0
+                /\ HdrFlagSet(r) = HdrFlagSet(w) /\ ~HdrZ(r)
+                /\ Obs(HdrOpcode(r), NamedOpcodes) = Obs(HdrOpcode(w), NamedOpcodes)
+                /\ Obs(HdrRcode(r), NamedRcodes4) = Obs(HdrRcode(w), NamedRcodes4)
+
 TraceHdrWords ==
   /\ Ev.ev = "HdrWords"
   /\ Len(Ev.p) = Ev.n /\ Len(Ev.k) = Ev.n /\ Len(Ev.r) = Ev.n
   /\ \A i \in 1 .. Ev.n :
-       Rule(l, "HdrFields", HdrWordOK(Ev, i), <<"w", Ev.w0 + i - 1>>)
+       /\ Rule(l, "HdrFields", HdrWordOK(Ev, i), <<"w", Ev.w0 + i - 1>>)
+       /\ Rule(l, "HdrReparse", HdrReparseOK(Ev, i),
+               <<"header-rcode", HdrRcode(Ev.w0 + i - 1), "header-opcode", HdrOpcode(Ev.w0 + i - 1), "re-emitted-word", Ev.r[i]>>)
 
 (* build side: e.c[i] = <<ctor, flagmask, opcode, rcode, word written>> *)
 HdrBuildOK(c) ==
@@ -293,9 +304,9 @@ TraceReparse ==
   /\ Ev.p1[1] = "ok"
   /\ Rule(l, "NoPanic", "panic" \notin {Ev.b2[1], Ev.b3[1], Ev.p2[1], Ev.p3[1]}, <<"reparse", Ev.b2[1], Ev.b3[1], Ev.p2[1], Ev.p3[1]>>)
   /\ Rule(l, "ReparseEqual", Ev.b2[1] = "ok" /\ Ev.p2[1] = "ok" /\ Ev.p2[2] = Ev.p1[2],
-          <<"plain", Ev.b2[1], Ev.p2[1], IF Ev.p2[1] = "ok" THEN PktDiff(Ev.p2[2], Ev.p1[2]) ELSE "-">>)
+          <<"plain", Ev.b2[1], Ev.p2[1], IF Ev.p2[1] = "ok" THEN PktDiff(Ev.p2[2], Ev.p1[2]) ELSE "-", "p1.rcode", Ev.p1[2].rcode>>)
   /\ Rule(l, "ReparseEqual", Ev.b3[1] = "ok" /\ Ev.p3[1] = "ok" /\ Ev.p3[2] = Ev.p1[2],
-          <<"comp", Ev.b3[1], Ev.p3[1], IF Ev.p3[1] = "ok" THEN PktDiff(Ev.p3[2], Ev.p1[2]) ELSE "-">>)
+          <<"comp", Ev.b3[1], Ev.p3[1], IF Ev.p3[1] = "ok" THEN PktDiff(Ev.p3[2], Ev.p1[2]) ELSE "-", "p1.rcode", Ev.p1[2].rcode>>)
 
 -----------------------------------------------------------------------------
 Init == l = 1
